@@ -493,6 +493,9 @@ fn semifinite(t: &mut Tape, ctx: &mut Ctx, maxlen: usize, maxcod: usize) -> Chec
     let mut w: Vec<Ob> = labels.iter().map(|&x| Ob(x)).collect();
     w.push(Ob(7));
     ensure!(ctx, cp.0 .0 == w && cp.len() == w.len(), "semifinite-arrow", "label array coproduct/singleton wrong");
+    // `+` sugar (by reference: always Some; by value)
+    ensure!(ctx, (&l + &l2).map(|x| x.0 .0) == Some(w.clone()), "semifinite-arrow", "&a + &b differs from coproduct");
+    ensure!(ctx, (l.clone() + l2.clone()).0 .0 == w, "semifinite-arrow", "a + b differs from coproduct");
     if f.len() >= 2 {
         ctx.nontrivial(&("semifinite", &f, b, &labels));
         if ctx.want_sample {
